@@ -26,7 +26,7 @@ SPEC = {
     "shards": {"quick": 16, "thorough": 16},
     "min_counts": {"quick": {"evaluations": 1000, "yields_checked": 5000, "loops_checked": 1500, "removed_checked": 1000,
                              "untouched_checked": 1000, "nested_loops": 300, "later_passes": 500,
-                             "reused_populate_objects": 200, "snapshots_taken": 200, "uformat_destinations": 300, "subfibers_assigned_whole": 300, "existing_leaf_left_at_default_checked": 1000, "free_uformat_sources": 100}},
+                             "reused_populate_objects": 200, "snapshots_taken": 200, "uformat_destinations": 300, "subfibers_assigned_whole": 300, "existing_leaf_left_at_default_checked": 1000, "nodefault_rejections": 60, "destinations_built_with_initial": 100, "uformat_sources_storing_nothing": 60, "free_uformat_sources": 100}},
     "assumptions": [
         "pre-existing explicit defaults of z that the body leaves alone may stay or be removed (only content is compared for them)",
         "bodies that break / raise are judged on WF and RC only",
@@ -75,18 +75,31 @@ def generate(rng, tier, shard, nshards, mon):
         depth = rng.choice([1, 1, 2, 2, 3])
         default = rng.choice([0, 0, 7, 0.5, -1.25])
         ext = [rng.randint(1, 5) for _ in range(depth)]
-        src = rng.choice(["eager", "eager", "tensor", "U-top", "U-mid", "lazy-and", "project", "U-free"])
+        src = rng.choice(["eager", "eager", "tensor", "U-top", "U-mid", "lazy-and", "project", "U-free", "U-all"])
         if depth > 1 and src == "U-free":
             src = "U-top"
         if depth == 1 and src == "U-mid":
             src = "U-top"
         if depth > 1 and src in ("lazy-and", "project"):
             src = "tensor"
+        if _ % 23 == 7:
+            # a destination that has no empty value (default None): an offered coordinate it lacks cannot be created - the loop is
+            # rejected there and must leave z as it was (plus what the body wrote before)
+            e = rng.randint(2, 6)
+            yield {"kind": "nodefault", "z": gen.rand_leaf_spec(rng, e, 0.5, 0.0, 0), "a": gen.rand_leaf_spec(rng, e, 0.7, 0.0, 0),
+                   "seed": rng.randrange(1 << 20), "default": None}
+            continue
+        if src == "U-all" and rng.random() < 0.5:
+            a_dens = 0.0        # a source tensor that stores nothing at all: every level presents its whole (declared) range
+        else:
+            a_dens = None
         case = {"kind": "rand", "depth": depth, "ext": ext, "default": default, "seed": rng.randrange(1 << 20),
                 "z": gen.rand_tree_spec(rng, ext, rng.choice([0.0, 0.3, 0.7]), rng.choice([0, 0.5]), default),
-                "a": gen.rand_tree_spec(rng, ext, rng.choice([0.3, 0.6, 0.9]), rng.choice([0, 0.4]), default),
+                "a": gen.rand_tree_spec(rng, ext, rng.choice([0.3, 0.6, 0.9]) if a_dens is None else a_dens, rng.choice([0, 0.4]) if a_dens is None else 0.0, default),
                 "a2": gen.rand_leaf_spec(rng, ext[0], 0.7, 0.1, default), "src": src,
                 "own": "free" if depth == 1 and rng.random() < 0.4 else "tensor",
+                # a free destination built from coordinates and one initial value (Fiber(coords, initial=v))
+                "zinitial": rng.choice([None, None, 3, default]),
                 "stop": rng.choice([None] * 8 + ["break", "raise"]), "at": rng.randint(0, 3),
                 # the same destination driven through several loops; the populate object may be built once and reused;
                 # a snapshot (Tensor.fromFiber on the owned root) may be taken between two loops
@@ -112,15 +125,53 @@ def _is_empty(p, d):
     return unbox(p) == d
 
 
-def _present(f, d, fmt):
+def _present(f, d, fmt, extent=None):
     if fmt == "U":
-        lo, hi = f.getActive()
+        # the declared extent of the rank when the caller knows it (never the library's own answer for a fiber it synthesised)
+        lo, hi = (0, extent) if extent is not None else f.getActive()
         st = dict(zip(f.coords, f.payloads))
         return [(c, st.get(c)) for c in range(lo, hi)]
     return [(c, p) for c, p in zip(f.coords, f.payloads) if not _is_empty(p, d)]
 
 
+def _run_nodefault(case, mon):
+    z = Fiber([c for c, _ in case["z"]], [v for _, v in case["z"]], default=None)
+    a = Fiber([c for c, _ in case["a"]], [v for _, v in case["a"]])
+    model = {c: v for c, v in case["z"]}
+    lacking = [c for c, _ in case["a"] if c not in model]
+    mon.count("nodefault_destinations")
+    rejected = None
+    try:
+        for c, (z_ref, a_val) in z << a:
+            z_ref += a_val
+            model[c] = model[c] + unbox(a_val)
+    except AssertionError as e:
+        rejected = e
+    except BaseException as e:      # noqa
+        if isinstance(e, KeyboardInterrupt):
+            raise
+        mon.violation(f"populate:no-default:raised:{type(e).__name__}", f"populate into a fiber without a default raised {type(e).__name__}: {e}")
+        return
+    mon.count("oracle_evals")
+    if lacking:
+        mon.count("nodefault_rejections")
+        if not mon.check(rejected is not None, "populate:no-default:created-an-element", f"z has no default but coordinate {lacking[0]} was created: {z!r}"):
+            return
+    pw = WF(z)
+    if pw:
+        mon.violation(f"wf:{'+'.join(sorted({wf_kind(p) for p in pw}))}:after-rejected-populate", f"destination not well-formed after the rejected loop: {pw[:2]}")
+        return
+    got = {c: unbox(p) for c, p in zip(z.coords, z.payloads)}
+    mon.check(got == model, "populate:no-default:content", f"after the {'rejected ' if rejected else ''}loop z holds {got}, expected {model}")
+    if lacking and len(model) >= 1:
+        mon.nontrivial()
+    mon.state(("nodefault", len(lacking), len(model)))
+
+
 def run_case(case, mon):
+    if case.get("kind") == "nodefault":
+        _run_nodefault(case, mon)
+        return
     d = case["default"]
     if case["kind"] == "sys":
         depth, src, seed = 1, "eager", 0
@@ -131,7 +182,12 @@ def run_case(case, mon):
     ids = gen.rank_ids_for(depth)
     shape = [e + 1 for e in case.get("ext", [4])] if case["kind"] == "rand" else [4]
     # destination
-    if case["own"] == "free":
+    if case["own"] == "free" and case.get("zinitial") is not None and case["z"] and depth == 1:
+        zv = case["zinitial"]
+        case = dict(case, z=[[c, zv] for c, _ in case["z"]])
+        zt, z = None, Fiber(coords=[c for c, _ in case["z"]], initial=zv, default=d, shape=shape[0])
+        mon.count("destinations_built_with_initial")
+    elif case["own"] == "free":
         zt, z = None, gen.fiber_from_spec(case["z"], d, shape=shape[0])
     else:
         zt = gen.tensor_from_spec(case["z"], ids, shape=shape, default=d, fmts=case.get("zfmts"))
@@ -148,7 +204,11 @@ def run_case(case, mon):
             fmts[0] = "U"
             mon.count("free_uformat_sources")
     else:
-        if src == "U-top":
+        if src == "U-all":
+            fmts = ["U"] * depth
+            if not case["a"]:
+                mon.count("uformat_sources_storing_nothing")
+        elif src == "U-top":
             fmts[0] = "U"
         elif src == "U-mid":
             fmts[1 if depth > 2 else 0] = "U"
@@ -188,7 +248,7 @@ def run_case(case, mon):
     def loop(zf, af, level, prefix, lazy_here, fmt):
         leaf = level == depth - 1
         if lazy_here is None:
-            pres = _present(af, d, fmt)
+            pres = _present(af, d, fmt, shape[level] if (at is not None or src == "U-free") and level < len(shape) else None)
             lazy_fiber = af
         elif lazy_here[0] == "and":
             p1 = dict(_present(lazy_here[1], d, "C"))
@@ -276,7 +336,10 @@ def run_case(case, mon):
                 else:
                     model.pop(pt, None)
             else:
-                if act == "assign-fiber" and not (case.get("assign_sub") and level == depth - 2 and isinstance(a_val, Fiber)):
+                if act == "assign-fiber" and not (case.get("assign_sub") and level == depth - 2 and isinstance(a_val, Fiber)
+                                                  and (fmts[level + 1] if at is not None else "C") == "C"):
+                    # (an uncompressed source fiber assigns its dense view, explicit defaults included: whether that counts as
+                    # "written" is not stated, so whole-fiber assignment is driven from compressed source levels only)
                     act = "recurse"     # whole-fiber assignment only just above the leaves (deeper: C02's known stale rank entries)
                 if act == "assign-fiber":
                     z_ref <<= a_val
